@@ -77,13 +77,16 @@ Fixpoint run_through (ms : list mop) (n : nat) (st : mstate) : mstate :=
 
 (** the maintenance the harness forces on a recovered store *)
 Definition plan (c : case) (s : rstore) : list maint :=
-  [MtFlushAll] ++ (if c_txn c then [MtMove] else []) ++ sealed_files (N.to_nat (c_buckets c)) s.
+  [MtFlushAll] ++ sealed_files (N.to_nat (c_buckets c)) s.
 
 (** the flattened client entries, each as its own batch (entry granularity) *)
 Definition entry_batches (w : list step) : list batch :=
   map (fun x => [x]) (concat (client_batches w)).
 
-Definition last_stage (o : obs) : list (N * obsv) := last (o_stages o) (o_reads o).
+(** the stage the model is compared with: the reads after the forced maintenance (the stages
+    are: after flush, after GC, after a clean reopen; the clean reopen after maintenance is
+    judged by the oracle only — close/reopen is C12's subject) *)
+Definition last_stage (o : obs) : list (N * obsv) := nth 1 (o_stages o) (o_reads o).
 
 Definition check (c : case) : verdict :=
   let ms := compile (c_sync c) (c_steps c) in
